@@ -383,6 +383,9 @@ func (c *converter) ForEnd() error {
 }
 
 func (c *converter) Break() error {
+	if len(c.endLabels) == 0 {
+		return fmt.Errorf("break is only supported within a for-loop")
+	}
 	c.addLine(fmt.Sprintf("goto %s", c.mustCurrentEndLabel()))
 	return nil
 }
